@@ -169,6 +169,8 @@ func c13Case(w *rt.W, s uint64) {
 		rcall{fmt.Sprintf("DefaultFormatter(spare %d, FormatPretty|FormatHTML)", sp), html, bufCall("", sp, size.FormatPretty|size.FormatHTML)},
 		rcall{fmt.Sprintf("DefaultFormatter(\"disk2\" spare %d, FormatPretty)", (sp*7)%61), "disk2" + pretty, bufCall("disk2", (sp*7)%61, size.FormatPretty)},
 		rcall{fmt.Sprintf("DefaultFormatter(\"n=19\" spare %d, 0)", (sp*3)%40), "n=19" + plain, bufCall("n=19", (sp*3)%40, 0)},
+		rcall{"DefaultFormatter(\"Total size: \", FormatPretty|FormatHTML)", "Total size: " + html, bufCall("Total size: ", sp%9, size.FormatPretty|size.FormatHTML)},
+		rcall{"DefaultFormatter(\"n 1 000\", FormatPretty)", "n 1 000" + pretty, bufCall("n 1 000", sp%11, size.FormatPretty)},
 		rcall{"Formatter variable (FormatPretty)", pretty, func() string { o, _ := size.Formatter(nil, sz, size.FormatPretty); return string(o) }},
 	)
 	h := rt.HashU(s, 13)
@@ -188,6 +190,18 @@ func c13Case(w *rt.W, s uint64) {
 	}
 	w.ClassN("unit-"+wu, 1)
 	w.ClassN(fmt.Sprintf("shortened-digits-%02d", len(digits)), 1)
+}
+
+func init() {
+	sizes := []uint64{0, 1, 1023, 1024, 7 << 20, 1536 << 30, 1 << 60, ^uint64(0), 1000000}
+	coldCases["C13"] = coldGeneric([]func(){
+		func() { _ = size.Size(0).PrettyHTML() },
+		func() { _, _ = size.Size(0).Shorten() },
+		func() { _, _ = size.DefaultFormatter(nil, 1<<60, size.FormatHTML) },
+		func() { _ = size.Size(1000).PrettyString() },
+		func() { _, _ = size.DefaultParser("0ZiB", 0) },
+		func() {},
+	}, func(w *rt.W, k int) { c13Case(w, sizes[k]) }, len(sizes))
 }
 
 func runC13(c *rt.Ctx) {
@@ -256,6 +270,7 @@ func runC13(c *rt.Ctx) {
 		}
 	}
 	c.Require("under-unrelated-configuration", int64(cfgN))
+	coldStart(c, "C13", 12)
 	for _, u := range binUnits {
 		c.Require("unit-"+u, 64)
 	}
